@@ -283,7 +283,7 @@ def tasks(tier):
            ('contracts.iteration', 'iter_task', ('C12', True)), ('contracts.iteration', 'iter_task', ('C12', False))]
     ts += [('contracts.traces', 'transact_block', ('C12',))]
     from contracts import c03
-    ts += c03.dependency_tasks('C12', ['get', 'set', 'add', 'pop', '__delitem__', '__contains__'], policy='none')   # an Index never evicts      # popitem / setdefault argue with 'one block is atomic'
+    ts += c03.dependency_tasks('C12', ['get', 'set', 'add', 'pop', '__delitem__', '__contains__'], policy='none', tier=tier)   # an Index never evicts      # popitem / setdefault argue with 'one block is atomic'
     return ts
 
 
